@@ -9,7 +9,11 @@ wildcard-imported names), dotted attribute chains, builtins and unknown names.  
 like a scope around the site are part of the space: module-level bindings, class members and
 class-level import aliases named like the containing module, an ancestor package, another module or
 the class itself (bound and unbound); class and nested-class sites take every site form (method
-decorators and bases of nested classes included).
+decorators and bases of nested classes included).  Class statements whose *body* binds the root
+name used in their own base / decorator / decorator argument, and decorator arguments in general,
+are site forms of all three scopes.  Every site is judged twice with the same oracle: on the
+freshly loaded tree and on the tree dumped with as_json() and loaded back with Module.from_json
+(minimal dump mostly, full dump and two round trips sometimes).
 Oracle (M-REF, identity): a CPython child really imports the package, evaluates each reference with
 Python's scoping rule for that site (``eval(expr, module globals, vars(class))``) and walks the
 path Griffe answered (import the longest module prefix, then getattr): both must be the *same
@@ -29,7 +33,9 @@ LEVEL = "exploration"
 ANCHORS = ["agents/nodes/imports.py", "expressions.py"]
 RULE = ("generated acyclic packages (3-8 modules) + appended reference sites: per module ~6 module-level sites, ~5 "
         "class-level sites in a class whose members shadow globals/imports, ~3 sites in a nested class; site kinds (all "
-        "three scopes): annotation, value, base class, decorator, parameter annotation, parameter default, return annotation; reference "
+        "three scopes): annotation, value, base class, function/class decorator, decorator argument, parameter annotation, "
+        "parameter default, return annotation, and class statements whose body binds the root name of their own base / decorator / "
+        "decorator argument; each site judged on the loaded tree and on the tree reloaded from its JSON dump; reference "
         "expressions: bound names, dotted chains through module aliases/classes, builtins, unknown names, names spelled like "
         "the containing module / a package / another module / the enclosing class (bound at module level, as class member, "
         "as class-level import alias, or unbound). distinct = "
@@ -45,7 +51,9 @@ REQUIRED_COUNTERS = ["packages_compared", "sites_compared", "bound_names_identic
                      "resolve_contract_evals", "dotted_chains_compared", "class_scope_sites", "nested_class_sites",
                      "module_named_bound_roots_in_class_scope", "module_named_bound_roots_in_module_scope",
                      "other_module_or_package_named_roots_bound", "class_named_bound_roots_in_class_scope",
-                     "decorator_or_base_sites_in_class_scope"]
+                     "decorator_or_base_sites_in_class_scope", "reloaded_tree_sites_compared",
+                     "class_body_binds_root_of_own_base_or_decorator", "class_body_binds_root_of_own_base_or_decorator_reloaded",
+                     "decorator_argument_sites"]
 EXHAUSTIVE = {"quick": False, "thorough": False}
 ASSUMPTIONS = ["reference sites are never executed (if TYPE_CHECKING) and are judged against the final bindings of their scope"]
 _SERVER: RefServer | None = None
@@ -179,8 +187,9 @@ def shards(tier: str, seed: int) -> list[dict]:
 
 
 # -- site generation ---------------------------------------------------------------------------
-FORMS_CLASS = ["ann", "value", "param", "ret", "default", "deco", "base"]
-FORMS_MODULE = ["ann", "value", "base", "deco", "param", "ret", "default"]
+FORMS_CLASS = ["ann", "value", "param", "ret", "default", "deco", "base", "deco-arg", "cdeco", "base-own", "cdeco-own", "cdeco-arg-own"]
+FORMS_MODULE = ["ann", "value", "base", "deco", "param", "ret", "default", "deco-arg", "cdeco", "base-own", "cdeco-own", "cdeco-arg-own"]
+OWN_KINDS = ["attr", "meth", "class", "ann"]
 
 
 def mangles(name: str) -> bool:
@@ -189,9 +198,32 @@ def mangles(name: str) -> bool:
     return name.startswith("__") and not name.endswith("__")
 
 
-def emit_site(form: str, nm: str, e: str, pad: str, method: bool) -> tuple[str, tuple]:
-    """Source text of one reference site named ``nm`` holding expression ``e`` + where to find it in the Griffe tree."""
+def emit_site(form: str, nm: str, e: str, pad: str, method: bool, callee: str = "print", own_kind: str = "attr") -> tuple[str, tuple]:
+    """Source text of one reference site named ``nm`` holding expression ``e`` + where to find it in the Griffe tree.
+
+    ``*-own`` forms: the site is a base / decorator / decorator argument of a class statement whose *body* binds the
+    root name of ``e`` itself (attribute, method, nested class or bare annotation... ``Config``-style).  Python evaluates
+    bases and decorators in the scope *enclosing* the class statement, so the body's binding must not be seen."""
     slf = "self, " if method else ""
+    if form in ("cdeco", "base-own", "cdeco-own", "cdeco-arg-own"):
+        root = e.split(".")[0]
+        if form == "cdeco":
+            body = f"{pad}    inert = 0"
+        elif own_kind == "meth":
+            body = f"{pad}    def {root}(self): ..."
+        elif own_kind == "class":
+            body = f"{pad}    class {root}: ..."
+        elif own_kind == "ann":
+            body = f"{pad}    {root}: int = 0"
+        else:
+            body = f"{pad}    {root} = 0"
+        if form == "base-own":
+            return f"{pad}class {nm}({e}):\n{body}", ("base", nm)
+        if form == "cdeco-arg-own":
+            return f"{pad}@{callee}({e})\n{pad}class {nm}:\n{body}", ("decorator-arg", nm)
+        return f"{pad}@{e}\n{pad}class {nm}:\n{body}", ("decorator", nm)
+    if form == "deco-arg":
+        return f"{pad}@{callee}({e})\n{pad}def {nm}({slf.rstrip(', ')}): ...", ("decorator-arg", nm)
     if form == "ann":
         return f"{pad}{nm}: {e} = None", ("attr-annotation", nm)
     if form == "value":
@@ -306,9 +338,11 @@ def add_sites(rng: random.Random, pkg: packages.Pkg) -> dict[str, list[dict]]:  
                 e = rng.choice(base_members)
             if class_imported and rng.random() < 0.35:
                 e = rng.choice(class_imported)
-            text, loc = emit_site(rng.choice(FORMS_CLASS), f"ks{i}", e, "        ", method=True)
+            form = rng.choice(FORMS_CLASS)
+            text, loc = emit_site(form, f"ks{i}", e, "        ", method=True, callee=rng.choice([*BUILTINS, e]),
+                                  own_kind=rng.choice(OWN_KINDS))
             cls_lines.append(text)
-            out.append({"classes": ["SiteK"], "expr": e, "loc": loc})
+            out.append({"classes": ["SiteK"], "expr": e, "loc": loc, "binds_root": form.endswith("-own")})
         cls_lines.append("    class Inner:")
         cls_lines.append("        inner_own = 2")
         inner_members = ["inner_own"]
@@ -324,16 +358,20 @@ def add_sites(rng: random.Random, pkg: packages.Pkg) -> dict[str, list[dict]]:  
                 rng.choice(inner_members) if rng.random() < 0.2 else ref_expr(in_class=True))
             if not use_enclosing and e.split(".")[0] in shadow + class_imported + ["own", "Inner"] and e.split(".")[0] not in inner_members:
                 e = rng.choice(inner_members)
-            text, loc = emit_site(rng.choice(FORMS_CLASS), f"is{i}", e, "            ", method=True)
+            form = rng.choice(FORMS_CLASS)
+            text, loc = emit_site(form, f"is{i}", e, "            ", method=True, callee=rng.choice([*BUILTINS, e]),
+                                  own_kind=rng.choice(OWN_KINDS))
             cls_lines.append(text)
-            out.append({"classes": ["SiteK", "Inner"], "expr": e, "loc": loc})
+            out.append({"classes": ["SiteK", "Inner"], "expr": e, "loc": loc, "binds_root": form.endswith("-own")})
         lines.append("\n".join(cls_lines))
         mlines = ["if TYPE_CHECKING:"]
         for i in range(rng.randint(4, 8)):
             e = ref_expr()
-            text, loc = emit_site(rng.choice(FORMS_MODULE), f"ms{i}", e, "    ", method=False)
+            form = rng.choice(FORMS_MODULE)
+            text, loc = emit_site(form, f"ms{i}", e, "    ", method=False, callee=rng.choice([*BUILTINS, e]),
+                                  own_kind=rng.choice(OWN_KINDS))
             mlines.append(text)
-            out.append({"classes": [], "expr": e, "loc": loc})
+            out.append({"classes": [], "expr": e, "loc": loc, "binds_root": form.endswith("-own")})
         lines.append("\n".join(mlines))
         sites[mod] = out
     return sites
@@ -354,6 +392,8 @@ def site_expression(gmod, site):  # noqa: ANN001, ANN201
         return obj.bases[0]
     if kind == "decorator":
         return obj.decorators[0].value
+    if kind == "decorator-arg":
+        return obj.decorators[0].value.arguments[0]
     if kind == "param-annotation":
         return obj.parameters["p"].annotation
     if kind == "param-default":
@@ -422,42 +462,61 @@ def count_input_classes(rec, f: dict, r: dict, structural: set) -> None:  # noqa
         rec.count("decorator_or_base_sites_in_class_scope")
     if packages.is_dunder(root) and bound:
         rec.count("dunder_named_bound_roots")
+    if f.get("view") == "reloaded":
+        rec.count("reloaded_tree_sites_compared")
+    if f.get("binds_root"):
+        rec.count("class_body_binds_root_of_own_base_or_decorator")
+        if f.get("view") == "reloaded":
+            rec.count("class_body_binds_root_of_own_base_or_decorator_reloaded")
+    if f.get("form") == "decorator-arg":
+        rec.count("decorator_argument_sites")
 
 
-def run_case(rec, files: dict, sites: dict[str, list[dict]], top: str, nontrivial: bool) -> None:  # noqa: ANN001, C901, PLR0912
+def run_case(rec, files: dict, sites: dict[str, list[dict]], top: str, nontrivial: bool, reload: dict | None = None) -> None:  # noqa: ANN001, C901, PLR0912
+    """``reload``: {"full": bool, "rounds": n} - besides the freshly loaded tree, every site is judged (same CPython
+    oracle) on the tree dumped with as_json(full=...) and loaded back with Module.from_json, ``rounds`` times."""
     import griffe
     from _griffe.expressions import Expr
 
-    case = {"files": files, "sites": sites, "top": top}
+    reload = reload or {"full": False, "rounds": 1}
+    case = {"files": files, "sites": sites, "top": top, "reload": reload}
     try:
         with case_watchdog(120), tmp_tree(files) as root:
             loader = griffe.GriffeLoader(search_paths=[root], allow_inspection=False)
             pkg = loader.load(top)
             loader.resolve_aliases(implicit=True, external=False)
+            reloaded = pkg
+            for _ in range(reload.get("rounds", 1)):
+                reloaded = griffe.Module.from_json(reloaded.as_json(full=bool(reload.get("full"))))
+            views = {"loaded": lambda mod: loader.modules_collection.get_member(mod),
+                     "reloaded": lambda mod: reloaded if mod == top else reloaded.get_member(mod[len(top) + 1:])}
+            gmods: dict[tuple, object] = {}
             flat: list[dict] = []
             answers: list[str] = []
-            for mod, slist in sites.items():
-                gmod = loader.modules_collection.get_member(mod)
-                if gmod.is_alias or not gmod.is_module:
-                    rec.skip("module-shadowed-by-member")
-                    return
-                for s in slist:
-                    expr = site_expression(gmod, s)
-                    if isinstance(expr, Expr):
-                        ans = expr.canonical_path
-                        # callable_path / path must not raise either
-                        _ = expr.path
-                    else:
-                        ans = str(expr)
-                    if not isinstance(ans, str):
-                        rec.fail(case, f"canonical_path of site {mod}:{s['loc']} is not a string", observed=repr(ans), nontrivial=nontrivial)
+            for view, getter in views.items():
+                for mod, slist in sites.items():
+                    gmod = gmods[(view, mod)] = getter(mod)
+                    if gmod.is_alias or not gmod.is_module:
+                        rec.skip("module-shadowed-by-member")
                         return
-                    flat.append({"module": mod, "classes": s["classes"], "expr": s["expr"], "griffe": ans, "form": s["loc"][0]})
-                    answers.append(ans)
-                    if "." in s["expr"] and isinstance(expr, Expr) and hasattr(expr, "first") and isinstance(expr.first, Expr):
-                        # the root of a dotted chain is judged on its own too (the chain itself only when CPython can evaluate it)
-                        flat.append({"module": mod, "classes": s["classes"], "expr": s["expr"].split(".")[0],
-                                     "griffe": expr.first.canonical_path, "form": s["loc"][0]})
+                    for s in slist:
+                        expr = site_expression(gmod, s)
+                        if isinstance(expr, Expr):
+                            ans = expr.canonical_path
+                            # callable_path / path must not raise either
+                            _ = expr.path
+                        else:
+                            ans = str(expr)
+                        if not isinstance(ans, str):
+                            rec.fail(case, f"canonical_path of site {mod}:{s['loc']} ({view} tree) is not a string", observed=repr(ans), nontrivial=nontrivial)
+                            return
+                        common = {"module": mod, "classes": s["classes"], "form": s["loc"][0], "view": view,
+                                  "binds_root": bool(s.get("binds_root"))}
+                        flat.append({**common, "expr": s["expr"], "griffe": ans})
+                        answers.append(ans)
+                        if "." in s["expr"] and isinstance(expr, Expr) and hasattr(expr, "first") and isinstance(expr.first, Expr):
+                            # the root of a dotted chain is judged on its own too (the chain itself only when CPython can evaluate it)
+                            flat.append({**common, "expr": s["expr"].split(".")[0], "griffe": expr.first.canonical_path})
             from vf.checks.c05 import implicit_submodule_names, statement_shadows_submodule
 
             if statement_shadows_submodule(files):
@@ -495,7 +554,7 @@ def run_case(rec, files: dict, sites: dict[str, list[dict]], top: str, nontrivia
             bad_roots: set[tuple] = set()
             for i in order:
                 f, r = flat[i], res["sites"][i]
-                key = (f["module"], tuple(f["classes"]), f["expr"].split(".")[0])
+                key = (f["view"], f["module"], tuple(f["classes"]), f["expr"].split(".")[0])
                 if "." in f["expr"] and key in bad_roots:
                     rec.count("chains_with_refuted_root_not_judged")
                     continue
@@ -510,7 +569,8 @@ def run_case(rec, files: dict, sites: dict[str, list[dict]], top: str, nontrivia
                 elif len(f["classes"]) == 2:
                     rec.count("nested_class_sites")
                 count_input_classes(rec, f, r, structural)
-                gmod = loader.modules_collection.get_member(f["module"])
+                gmod = gmods[(f["view"], f["module"])]
+                tree = "" if f["view"] == "loaded" else " [tree reloaded from JSON]"
                 if f["expr"].split(".")[0] in implicit.get(f["module"], ()) and not any(
                         f["expr"].split(".")[0] in vars_ for vars_ in ()):
                     rec.count("implicit_submodule_roots_not_judged")  # domain restriction shared with C05
@@ -523,7 +583,7 @@ def run_case(rec, files: dict, sites: dict[str, list[dict]], top: str, nontrivia
                         site = {"classes": f["classes"], "expr": f["expr"]}
                         fid, tried = classify(site, gmod, f["griffe"], r)
                         what = (f"{f['module']} {'/'.join(f['classes'])}: name {f['expr']!r} has no static binding in Python "
-                                f"({'builtin' if r['builtin'] else r['cpy']['id']}) but Griffe resolved it")
+                                f"({'builtin' if r['builtin'] else r['cpy']['id']}) but Griffe resolved it{tree}")
                         if fid:
                             deferred = deferred or (what, f["griffe"], f["expr"], fid, tried)
                             continue
@@ -543,7 +603,7 @@ def run_case(rec, files: dict, sites: dict[str, list[dict]], top: str, nontrivia
                     if fid is None and "." in f["expr"] and f["griffe"].split(".")[0] == f["expr"].split(".")[0]:
                         # a chain whose root was left unresolved: the root site (judged separately) carries the verdict
                         continue
-                    what = f"{f['module']} {'/'.join(f['classes'])}: {f['expr']!r} resolved to a path that is not the object Python binds"
+                    what = f"{f['module']} {'/'.join(f['classes'])}: {f['expr']!r} resolved to a path that is not the object Python binds{tree}"
                     if fid:
                         deferred = deferred or (what, {"griffe": f["griffe"], "walk": r.get("walk")}, r["cpy"], fid, tried)
                         continue
@@ -579,7 +639,8 @@ def run_shard(spec: dict, rec) -> None:  # noqa: ANN001
             pkg = packages.gen_package(rng, "pk")
             sites = add_sites(rng, pkg)
             files = pkg.files()
-            run_case(rec, files, sites, "pk", features(files, sites))
+            reload = {"full": rng.random() < 0.15, "rounds": 2 if rng.random() < 0.2 else 1}
+            run_case(rec, files, sites, "pk", features(files, sites), reload)
     finally:
         server().close()
 
@@ -588,7 +649,7 @@ def run_replay(inp: dict, rec) -> None:  # noqa: ANN001
     install_contract(rec)
     sites = {m: [{**s, "loc": tuple(s["loc"])} for s in sl] for m, sl in inp["sites"].items()}
     try:
-        run_case(rec, inp["files"], sites, inp.get("top", "pk"), True)
+        run_case(rec, inp["files"], sites, inp.get("top", "pk"), True, inp.get("reload"))
     finally:
         server().close()
 
@@ -603,7 +664,7 @@ def run_pinned(findings: list[dict], rec) -> dict:  # noqa: ANN001
             sub = Recorder(PROP, {})
             w = f["witness"]
             sites = {m: [{**s, "loc": tuple(s["loc"])} for s in sl] for m, sl in w["sites"].items()}
-            run_case(sub, w["files"], sites, w.get("top", "pk"), True)
+            run_case(sub, w["files"], sites, w.get("top", "pk"), True, w.get("reload"))
             out[f["id"]] = pinned_result(sub, f)
     finally:
         server().close()
